@@ -1,8 +1,48 @@
+(* C25: requests forwarded to backends cannot be split or injected.  Property theorems only.
+   Model: model/Http1Write.v -- write_request = Request.write (request line, Host line, Content-Length /
+   Transfer-Encoding line, Header.WriteSubset: keys sorted, values with CR/LF -> SP and trimmed, raw keys,
+   body / re-chunked body); accepted = the request each frontend hands over (HTTP/1: ReadRequest model of
+   C24; HTTP/2: readMetaFrame + checkPseudos + newWriterAndRequest; SPDY: parseHeaderValueBlock +
+   readSynStreamFrame checks + newWriterAndRequest); strict_parse = strict reference parser (CRLF only, token
+   method and names, request-target without SP/CTL, exactly one Host, RFC framing, nothing after the body). *)
 From Coq Require Import List ZArith Bool.
-From Bfe Require Import lib.Val model.Http1Req model.Http1Write proofs.Http1WriteProofs run.RunC25.
+From Bfe Require Import lib.Val lib.Bytes model.Http1Req model.Http1Write proofs.Http1WriteProofs run.RunC25.
 Import ListNotations.
 Open Scope Z_scope.
 
-Theorem C25_placeholder : kf_C25 (VZ 0) = 0.
-Proof. exact placeholder_c25. Qed.
-Print Assumptions C25_placeholder.
+(* Headline (guarded): for EVERY accepted request r that is safe (method is a token; request-target non-empty
+   without SP/CTL; Host without CR/LF; every forwarded field name a token) and well-formed (header keys in
+   canonical form as the frontends store them; body absent or Content-Length n with exactly n bytes,
+   0 < n < 10^80), the bytes written to the backend parse, with the strict reference parser, as exactly one
+   request, and it is the accepted one: same method, target, Host, same forwarded fields in key order with
+   sanitised values, same body; nothing follows it.  No field value whatsoever (CR, LF, NUL, ...) can add
+   fields or messages.  Chunked bodies are not covered by this proved statement (kept as C25_..._partial
+   in spirit; see props/C25.json). *)
+Theorem C25_one_wellformed_request : forall r,
+  safe_request r = true -> wf_wreq r = true ->
+  strict_parse (write_request r) = Some (normalize r).
+Proof. exact C25_one_wellformed_request_lemma. Qed.
+Print Assumptions C25_one_wellformed_request.
+
+(* The same through the executable predicates the harness evaluates on the implementation's output. *)
+Theorem C25_prop_of_model : forall i r,
+  accepted i = inr r -> safe_request r = true -> wf_wreq r = true ->
+  prop_C25 i (run_C25 i) = true.
+Proof. exact C25_prop_of_model_lemma. Qed.
+Print Assumptions C25_prop_of_model.
+
+(* The frontends do NOT establish safe_request: one accepted-and-written witness per class
+   (frontend*10 + component; 1 method, 2 target, 3 host, 4 field name).  HTTP/1: method "G(T", Host with a
+   bare CR, name "X A".  HTTP/2: :method "GET /x", :path "/a b".  SPDY: CR LF in :method, SP in :path,
+   CR LF in :host, CR LF in a header name.  Each confirmed on the real code (corpus/C25/witness.case). *)
+Theorem C25_frontend_establishes_safe_refuted :
+  refuted25 w11 11 /\ refuted25 w13 13 /\ refuted25 w14 14 /\ refuted25 w21 21 /\ refuted25 w22 22 /\
+  refuted25 w31 31 /\ refuted25 w32 32 /\ refuted25 w33 33 /\ refuted25 w34 34.
+Proof. exact C25_refuted_lemma. Qed.
+Print Assumptions C25_frontend_establishes_safe_refuted.
+
+(* Non-vacuity: per frontend a safe, well-formed accepted request (HTTP/1 POST with a 3-byte body and a
+   value containing a bare CR; HTTP/2 with two cookies and an HTAB value; SPDY with a NUL-separated value
+   containing CR LF "Evil: 1") for which the written bytes satisfy the property. *)
+Example C25_nonvacuous : nonvac ok1 /\ nonvac ok2 /\ nonvac ok3.
+Proof. exact C25_nonvacuous_lemma. Qed.
